@@ -349,6 +349,20 @@ def cellLe (a b : Cell) : Option Bool :=
   | .int x, .int y => some (x ≤ y)
   | _, _ => none
 
+/-- `lo <= x <= hi` on cells, either bound optional; `none` where the model does not define the comparison -/
+def rangeOk (lo hi : Option Cell) (x : Cell) : Option Bool :=
+  match lo, hi with
+  | some l, some h => (match cellLe l x, cellLe x h with | some p, some q => some (p && q) | _, _ => none)
+  | some l, none => cellLe l x
+  | none, some h => cellLe x h
+  | none, none => some true
+
+/-- the value-range selector `lo:hi:'col'` on a column -/
+def valueRange (col : List Cell) (lo hi : Option Cell) : Except TErr Ix :=
+  if col.all (fun x => (rangeOk lo hi x).isSome) then
+    .ok (.idx (((enumFrom 0 col).filter (fun p => (rangeOk lo hi p.2).getD false)).map (fun p => (p.1 : Int))))
+  else .error .typeError
+
 /-- `_get_row_where_col(col, value)`: first row where the column equals the value -/
 def rowWhereCol (c : List Cell) (v : Cell) : Except TErr Int :=
   match (enumFrom 0 c).find? (fun p => p.2 = v) with
@@ -408,16 +422,7 @@ def getRowIndices (t : Tbl) (m : String → Match) : Sel → Tbl × Except TErr 
           let hi := match b with | .int i => some (Cell.int i) | _ => none
           match lo, hi with
           | none, none => (t, .ok (.slice none none none))
-          | _, _ =>
-            let ok (x : Cell) : Option Bool :=
-              match lo, hi with
-              | some l, some h => (match cellLe l x, cellLe x h with | some p, some q => some (p && q) | _, _ => none)
-              | some l, none => cellLe l x
-              | none, some h => cellLe x h
-              | none, none => some true
-            if col.all (fun x => (ok x).isSome) then
-              (t, .ok (.idx (((enumFrom 0 col).filter (fun p => (ok p.2).getD false)).map (fun p => (p.1 : Int)))))
-            else (t, .error .typeError)
+          | _, _ => (t, valueRange col lo hi)
       | _ =>
         let toI : Bound → Option Int := fun x => match x with | .int i => some i | _ => none
         (t, .ok (.slice (toI a) (toI b) (toI c)))
